@@ -370,7 +370,7 @@ def close_writer(u: U):
                 "the writer is marked closing before the frame is handed to send_frame (no data frame can follow it)")
 
 
-@unit("C11", "send_async_locked", functions=[f"{WMOD}:WebSocketWriter._send_compressed_frame_async_locked"])
+@unit("C11", "send_async_locked", functions=[f"{WMOD}:WebSocketWriter._send_compressed_frame_async_locked"], also=("C13",))
 def send_async_locked(u: U):
     """the executor path holds _send_lock from before compress() until after the frame is written."""
     W, w, lock, g = _send_frame_unit(u, "async")
@@ -379,16 +379,38 @@ def send_async_locked(u: U):
     opcode = (rfc.OP_TEXT, rfc.OP_BINARY)[u.choose(2, "opcode")]
     comp_arg = (None, 15)[u.choose(2, "compress_arg")]
     u.assume(Or(bool(comp_arg), w.compress != 0))
+    u.assume(Not(w._closing))            # send_frame() refuses data frames on a closing writer before it gets here
+    closed_at = []
+
+    def hook(y):
+        # rely: while this task waits for the lock or for the executor, another task may run close() - it marks the
+        # writer closing and its CLOSE frame (a control frame, never compressed, no lock) is on the wire at once
+        if not closed_at and u.choose(2, f"interference.close_during.{y.awaited.name}"):
+            fields(w)["_closing"] = True
+            u.event("close_frame_by_other_task")
+            closed_at.append(y.awaited.name)
+
+    u.suspend_hook = hook
     out = u.call(f, w, msg, opcode, comp_arg)
     frames = [e for e in u.events if e[0] == "frame"]
     comp_events = [e for e in u.events if e[0] in ("compress", "flush")]
-    u.check("C11.lock.async.compressor_only_under_lock", all(e[1] is True for e in comp_events) and len(comp_events) == 2,
-            "compress + flush both under the lock")
+    names = [e[0] for e in u.events]
+    u.check("C11.lock.async.released", lock.held is False, "the lock is released on exit")
+    u.check("C11.lock.async.compressor_only_under_lock", all(e[1] is True for e in comp_events),
+            "compress / flush only under the lock")
+    if closed_at:
+        u.check("C13.writer.no_data_frame_after_close.large_frames",
+                And(not out.ok, all(names.index("frame") < names.index("close_frame_by_other_task") for _ in frames[:1])),
+                "a large compressed data frame that was still waiting for the lock or being compressed in the executor when "
+                "close() sent the CLOSE frame is dropped with an error - written afterwards it would follow the close frame "
+                "on the wire",
+                known=[("F13f", True)], witness={"close_arrives_during": closed_at[0]},
+                also_as=("C11.close.large_frame_in_flight_is_dropped",))
+        return
+    u.check("C11.lock.async.both_under_lock", len(comp_events) == 2, "compress + flush both happen")
     u.check("C11.lock.async.write_under_lock", And(len(frames) == 1, frames[0][3] is True if frames else False,
                                                   frames[0][2] == 0x40 if frames else False),
             "exactly one RSV1 frame, written before the lock is released")
-    u.check("C11.lock.async.released", lock.held is False, "the lock is released on exit")
-    names = [e[0] for e in u.events]
     u.check("C11.lock.async.order", names.index("send_lock.acquired") < names.index("compress") < names.index("flush")
             < names.index("frame") < names.index("send_lock.released") if out.ok else True,
             "acquire < compress < flush < write < release")
